@@ -49,14 +49,14 @@ enum { TC_ROOT = 0, TC_BOTH, TC_ROOT2, TC_INTER };
 static const char *TC_FILE[] = { "tc_root.pem", "tc_both.pem", "tc_root2.pem", "tc_inter.pem" };
 enum { CRL_REVOKING = 0, CRL_EMPTY };
 static const char *CRL_FILE[] = { "crl_revoking.pem", "crl_empty.pem" };
-enum { NM_MATCH = 1, NM_NOMATCH = 2 };
-static const char *NAMES[] = { "", "decoy.verif.test:peer.verif.test", "decoy.verif.test:nomatch.verif.test" };
+enum { NM_MATCH = 1, NM_NOMATCH = 2, NM_EMPTY = 3, NM_HOST = 9 };   /* NM_EMPTY: tls.peer_names = "" ; NM_HOST: oracle only */
+static const char *NAMES[] = { "", "decoy.verif.test:peer.verif.test", "decoy.verif.test:nomatch.verif.test", "" };
 #define HOSTNAME "peer.verif.test"
 
 /* ---- one attribute map = one conf ------------------------------------------------------------ */
 struct conf {
     int auth, time, crl, verify, client;   /* -1 = attribute absent from the map, else 0/1 */
-    int names;                             /* -1 absent, NM_MATCH, NM_NOMATCH */
+    int names;                             /* -1 absent, NM_MATCH, NM_NOMATCH, NM_EMPTY */
     int tc, tc_mode;                       /* -1 absent, else bundle; mode 0 = *_file, 1 = by value */
     int crl_b, crl_mode;
     int cred, cred_mode;                   /* 0 = none set here, else kind+1 / CRED_OWN */
@@ -138,7 +138,8 @@ static void load_kinds(void)
 struct pol {
     int set;            /* 0 = no policy attribute given at all (the documented defaults apply) */
     int auth, time, crl;
-    int nm;             /* 0 off, 1 on+matching names, 2 on+non-matching names, 3 on, no names, 4 on, hostname in the address */
+    int nm;             /* 0 off, 1 on+matching names, 2 on+non-matching names, 3 on, no names, 4 on, hostname in the address,
+                           5 on, tls.peer_names = "" (empty string), 6 the same with a hostname in the address */
 };
 
 static void sut_fill(struct conf *c, const struct pol *p, int tv, int cv, int smode)
@@ -155,6 +156,8 @@ static void sut_fill(struct conf *c, const struct pol *p, int tv, int cv, int sm
     c->verify = p->nm != 0;
     if (p->nm == 1 || p->nm == 2)
         c->names = p->nm;
+    if (p->nm >= 5)
+        c->names = NM_EMPTY;
     if (p->auth) {
         c->tc = tv;
         c->tc_mode = smode;
@@ -191,7 +194,7 @@ static void opposite_fill(struct conf *s, const struct pol *p, int smode)
         s->tc = TC_ROOT2;
         s->tc_mode = !smode;
         s->verify = 1;
-        s->names = (p->nm == 2 || p->nm == 3) ? NM_MATCH : NM_NOMATCH;
+        s->names = (p->nm == 2 || p->nm == 3 || p->nm >= 5) ? NM_MATCH : NM_NOMATCH;
     } else
         s->verify = 0;
     if (s->crl) {
@@ -201,7 +204,8 @@ static void opposite_fill(struct conf *s, const struct pol *p, int smode)
 }
 
 static const char *PLC[] = { "connect", "server", "accept", "override" };
-static const char *NMW[] = { "off", "on+matching-names", "on+non-matching-names", "on-without-names", "on+hostname-in-address" };
+static const char *NMW[] = { "off", "on+matching-names", "on+non-matching-names", "on-without-names", "on+hostname-in-address",
+                             "on+EMPTY-peer_names-string", "on+EMPTY-peer_names-string+hostname-in-address" };
 
 /* placement: 0 = policy in the xcm_connect_a map (side under test = client), 1 = on the server
    socket (inherited), 2 = in the xcm_accept_a map, 3 = accept map overriding opposite server values */
@@ -221,7 +225,7 @@ static void place(int placement, const struct pol *p, int rev, int kind, int pmo
             CC.client = 0;
             SC.client = 1;
         }
-        g_hostname = p->nm == 4;
+        g_hostname = p->nm == 4 || p->nm == 6;
         return;
     }
     peer_fill(&CC, kind, pmode, strict);
@@ -281,8 +285,11 @@ static void build_cell(void)
         struct pol p = POL8(pi == 8 ? 6 : pi, 0);
         if (pi == 8)
             p.set = 0;
-        else if (core || full)
-            nm = pick(placement == 0 ? 5 : 4, "names");
+        else if (core || full) {
+            nm = pick(placement == 0 ? 7 : 5, "names");
+            if (placement != 0 && nm == 4)
+                nm = 5;
+        }
         else if (!strcmp(g_part, "mixed"))
             nm = pick(2, "names");
         else if (deep)
@@ -291,7 +298,7 @@ static void build_cell(void)
         if (core || full || deep || !strcmp(g_part, "strict") || !strcmp(g_part, "crlv"))
             rev = pick(2, "reversed");
         int kind;
-        if (p.set && !p.auth && !full) {
+        if ((p.set && !p.auth && !full) || nm >= 5) {
             /* with authentication off nothing is demanded of the peer: a few kinds suffice (all of them in `full`) */
             static const char *FEW[] = { "valid", "untrusted_root", "expired", "wrong_name" };
             kind = kind_by_name(FEW[pick(4, "kind")]);
@@ -360,7 +367,7 @@ static void build_cell(void)
         sut_fill(&SC, &p, TC_ROOT, CRL_REVOKING, 0);
         int srv_invalid = (!p.auth && p.crl);
         if (!srv_invalid) {
-            int a = pick(3, "acc-auth"), t = pick(3, "acc-time"), c = pick(3, "acc-crl"), n = pick(6, "acc-names");
+            int a = pick(3, "acc-auth"), t = pick(3, "acc-time"), c = pick(3, "acc-crl"), n = pick(7, "acc-names");
             AC.auth = a - 1;
             AC.time = t - 1;
             AC.crl = c - 1;
@@ -371,6 +378,7 @@ static void build_cell(void)
             case 3: AC.verify = 1; AC.names = NM_MATCH; break;
             case 4: AC.verify = 1; AC.names = NM_NOMATCH; break;
             case 5: AC.names = NM_MATCH; break;
+            case 6: AC.verify = 1; AC.names = NM_EMPTY; break;
             }
             /* material the accept map must bring for what it switches on */
             if (AC.auth == 1 && SC.tc < 0)
@@ -382,7 +390,7 @@ static void build_cell(void)
         int kind = kind_by_name(XK[pick(5, "kind")]);
         peer_fill(&CC, kind, 0, 0);
         snprintf(g_desc, sizeof g_desc, "server socket auth=%d check_time=%d check_crl=%d verify_peer_name=%s; accept map auth=%d check_time=%d "
-                 "check_crl=%d verify=%d names=%d (-1 = not in the map, names 1 = matching, 2 = non-matching); peer credential '%s'", p.auth, p.time, p.crl, NMW[p.nm], AC.auth,
+                 "check_crl=%d verify=%d names=%d (-1 = not in the map, names 1 = matching, 2 = non-matching, 3 = empty string); peer credential '%s'", p.auth, p.time, p.crl, NMW[p.nm], AC.auth,
                  AC.time, AC.crl, AC.verify, AC.names, g_kinds[kind].name);
     } else if (!strcmp(g_part, "x2")) {
         /* client policy x server policy, both ends carry the valid credential; both ends are judged */
@@ -444,11 +452,14 @@ static void build_cell(void)
 /* ================================================================================================ */
 /* The oracle `policy` (documentation only)                                                         */
 /* ================================================================================================ */
-enum { E_SAT, E_UNSAT, E_EITHER, E_INVALID };
+/* E_NAMEGATE: tls.verify_peer_name is on but either tls.auth is off or tls.peer_names is the empty string.
+   Admissible: refused at creation (what the unchanged tree does, EINVAL), or a connection on which the
+   name really is enforced; NOT admissible: usable with a peer none of whose names is expected. */
+enum { E_SAT, E_UNSAT, E_EITHER, E_INVALID, E_NAMEGATE };
 
 struct eff {                 /* effective configuration of a connection socket */
     int auth, time, crl, verify, tls_client;
-    int names;               /* -1 none, NM_*, 3 = hostname of the address */
+    int names;               /* -1 none, NM_MATCH/NM_NOMATCH/NM_EMPTY, NM_HOST = hostname of the address */
     int tc, crl_b;
 };
 
@@ -457,6 +468,8 @@ struct expect {
     int srv_invalid;         /* the server-socket map itself is an invalid combination */
     const char *why;         /* unmet condition / broken rule */
     const char *note;
+    const char *want;        /* E_NAMEGATE: the expected names ("" = none can match) */
+    const char *tag;         /* E_NAMEGATE: auth=off | names=empty */
     struct eff eff;
 };
 
@@ -558,7 +571,7 @@ static int satisfied(const struct eff *e, int cred, const char **why, const char
         return E_UNSAT;
     }
     if (e->verify) {
-        const char *want = e->names == 3 ? HOSTNAME : e->names > 0 ? NAMES[e->names] : "";
+        const char *want = e->names == NM_HOST ? HOSTNAME : e->names > 0 ? NAMES[e->names] : "";
         if (!names_overlap(k->names, want)) {
             *why = e->names < 0 ? "no-expected-names" : "name-mismatch";
             return E_UNSAT;
@@ -573,8 +586,9 @@ static void expect_client(struct expect *x)
     x->why = x->note = "";
     struct eff e = { .auth = 1, .time = 1, .crl = 0, .verify = 0, .tls_client = 1, .names = -1, .tc = -1, .crl_b = -1 };
     eff_apply(&e, &CC);
-    if (e.verify && e.names < 0 && g_hostname)
-        e.names = 3;
+    /* no names (or, as the admissible reading of an empty string, none): the hostname of the address */
+    if (e.verify && (e.names < 0 || e.names == NM_EMPTY) && g_hostname)
+        e.names = NM_HOST;
     x->eff = e;
     const char *inv = map_invalid(&CC, &e);
     if (!inv && e.verify && e.auth && e.names < 0)
@@ -584,9 +598,11 @@ static void expect_client(struct expect *x)
         x->why = inv;
         return;
     }
-    if (e.verify && !e.auth) {
-        x->e = E_EITHER;                           /* the documentation does not say */
-        x->note = "verify-without-auth";
+    if (e.verify && (!e.auth || e.names == NM_EMPTY)) {
+        x->e = E_NAMEGATE;
+        x->note = !e.auth ? "verify-without-auth" : "empty-names";
+        x->tag = !e.auth ? "auth=off" : "names=empty";
+        x->want = e.names == NM_HOST ? HOSTNAME : e.names > 0 ? NAMES[e.names] : "";
         return;
     }
     x->e = satisfied(&e, SC.cred, &x->why, &x->note);
@@ -616,9 +632,11 @@ static void expect_server(struct expect *x)
         x->why = inv;
         return;
     }
-    if (e.verify && !e.auth) {
-        x->e = E_EITHER;
-        x->note = "verify-without-auth";
+    if (e.verify && (!e.auth || e.names == NM_EMPTY)) {
+        x->e = E_NAMEGATE;
+        x->note = !e.auth ? "verify-without-auth" : "empty-names";
+        x->tag = !e.auth ? "auth=off" : "names=empty";
+        x->want = e.names > 0 ? NAMES[e.names] : "";
         return;
     }
     x->e = satisfied(&e, g_raw_client ? CRED_NONE : CC.cred, &x->why, &x->note);
@@ -1076,6 +1094,27 @@ static void judge(struct side *x, struct side *peer, struct expect *ex, struct e
         }
         return;
     }
+    if (ex->e == E_NAMEGATE) {
+        mc_count(5, 1);
+        int cred = x == &A ? SC.cred : g_raw_client ? CRED_NONE : CC.cred;
+        const char *have = cred == CRED_NONE ? "" : cred == CRED_OWN ? "own.verif.test" : g_kinds[cred].names;
+        const char *saw = x->usable ? "finish-succeeded" : x->got > 0 ? "data-delivered" : peer->got > 0 ? "data-transmitted" : NULL;
+        if (saw && !names_overlap(have, ex->want)) {
+            snprintf(sig, sizeof sig, "C09/fail-open/name-mismatch/%s/saw=%s/at=%s/tp=%s", ex->tag, saw, where, g_tp);
+            mc_violation(sig, "tls.verify_peer_name is on (%s) and the expected names are {%s}; the peer's names are {%s}, yet the %s side: "
+                         "xcm_finish %s, was handed %d byte(s), its own message %s.  Admissible were EINVAL at creation or a refusal. Cell: %s",
+                         ex->tag, ex->want, have, x->name, x->usable ? "succeeded" : "did not succeed", x->got,
+                         peer->got > 0 ? "reached the peer" : "did not reach the peer", g_desc);
+            return;
+        }
+        if (x->created || x->create_errno) {
+            int err = x->created ? x->err : x->create_errno;
+            snprintf(sig, sizeof sig, "either/%s/%s/%s", ex->note, x->usable ? "usable" : errname(err), g_tp);
+            mc_info(sig, "%s: admissible are a refusal at creation or an enforced name; the %s side %s. Cell: %.120s", ex->note, x->name,
+                    x->usable ? "became usable with a peer carrying an expected name" : "refused", g_desc);
+        }
+        return;
+    }
     if (ex->e == E_EITHER) {
         mc_count(5, 1);
         if (x->created || x->create_errno) {
@@ -1087,7 +1126,8 @@ static void judge(struct side *x, struct side *peer, struct expect *ex, struct e
         return;
     }
     /* E_SAT: being refused is stricter than documented, not a violation */
-    int peer_ok = peer->created && (pex->e == E_SAT || (pex->e == E_EITHER && peer->usable)) && !(peer == &B && g_server_errno);
+    int peer_ok = peer->created && (pex->e == E_SAT || ((pex->e == E_EITHER || pex->e == E_NAMEGATE) && peer->usable)) &&
+                  !(peer == &B && g_server_errno);
     if (!peer_ok) {
         if (x == &A && !x->created && x->create_errno == EINVAL) {
             mc_count(6, 1);
@@ -1154,7 +1194,7 @@ static void scenario(const char *params)
     struct expect ea, eb;
     expect_client(&ea);
     expect_server(&eb);
-    static const char *EN[] = { "must-accept", "must-refuse", "either", "invalid" };
+    static const char *EN[] = { "must-accept", "must-refuse", "either", "invalid", "refuse-or-enforce-name" };
     mc_observe("oracle: client %s%s%s, server %s%s%s", EN[ea.e], ea.why[0] ? " " : "", ea.why, EN[eb.e], eb.why[0] ? " " : "", eb.why);
 
     struct xcm_attr_map *sm = mk_map(&SC, 1);
